@@ -354,3 +354,23 @@ def same_outcome(a, b, rel=1e-9):
     if a[0] == 'x':
         return a[1] == b[1]
     return same(a[1], b[1], rel)
+
+
+def raised_outside_harness(exc):
+    """True when the innermost frame of the traceback is not harness code (i.e. the exception comes
+    out of pycel or a library it calls): such an exception is a witness, not a harness error"""
+    import os
+    tb = exc.__traceback__
+    last = None
+    while tb is not None:
+        last = tb.tb_frame.f_code.co_filename
+        tb = tb.tb_next
+    here = os.path.dirname(os.path.abspath(__file__))
+    return last is not None and not os.path.abspath(last).startswith(here)
+
+
+def describe(exc):
+    import traceback
+    frames = traceback.extract_tb(exc.__traceback__)
+    where = ' <- '.join(f'{os.path.basename(f.filename)}:{f.lineno}:{f.name}' for f in frames[-3:][::-1])
+    return f'{type(exc).__name__}: {str(exc).strip().splitlines()[-1][:160] if str(exc).strip() else ""} at {where}'
